@@ -746,6 +746,28 @@ def cmd_replay(args):
         shutil.rmtree(root, ignore_errors=True)
 
 
+def cmd_native(args):
+    """Run hand-written native confirmation tests of the harness files on /repo's current tree
+    (they must PASS on a tree where the property holds)."""
+    root, crate_dir = make_overlay("native-%s" % args.cfg)
+    try:
+        cmd = ["cargo", "kani", "playback", "-Z", "concrete-playback", "--lib",
+               "--no-default-features", "--features", features_of(args.cfg), "--",
+               args.filter, "--test-threads", "4"]
+        p = subprocess.run(cmd, cwd=crate_dir, env=dict(os.environ, CARGO_NET_OFFLINE="true"),
+                           stdout=subprocess.PIPE, stderr=subprocess.STDOUT, text=True)
+        for ln in p.stdout.splitlines():
+            if re.match(r"^(test |running|error|thread .* panicked)", ln) or "panicked at" in ln:
+                log(ln[:300])
+        return p.returncode
+    finally:
+        shutil.rmtree(root, ignore_errors=True)
+        try:
+            os.remove(root + ".pid")
+        except OSError:
+            pass
+
+
 def cmd_list(args):
     for h in load_registry():
         if args.property and args.property not in h.props:
@@ -777,9 +799,12 @@ def main():
     l = sp.add_parser("list")
     l.add_argument("property", nargs="?")
     sp.add_parser("setup")
+    n = sp.add_parser("native")
+    n.add_argument("cfg")
+    n.add_argument("filter")
     a = ap.parse_args()
     sys.exit({"check": cmd_check, "replay": cmd_replay, "list": cmd_list,
-              "setup": cmd_setup}[a.cmd](a))
+              "setup": cmd_setup, "native": cmd_native}[a.cmd](a))
 
 
 if __name__ == "__main__":
